@@ -124,16 +124,16 @@ DeclToks(d, style) ==
 FileToks(decls, style) == PrPreamble \o Flat([i \in 1..Len(decls) |-> DeclToks(decls[i], style)])
 
 (* --------------------------------------------------------------- rendering *)
-GapChoices == <<"", " ", "\n", "\t", " /*c*/ ", " //c\n">>
+GapChoices == <<"", " ", "\n", "\t", " /*c*/ ", " //c\n", " /** c **/ ", " /***/ ">>       \* block comments ending in runs of stars too
 Gap(style, k, a, b) ==
     LET need == a.c = "w" /\ b.c = "w"
         g == CASE style.gaps = "min" -> ""
                [] style.gaps = "sp"  -> " "
                [] style.gaps = "nl"  -> "\n"
-               [] style.gaps = "cm"  -> IF k % 2 = 0 THEN " /*c*/ " ELSE " //c\n"
+               [] style.gaps = "cm"  -> CASE k % 6 = 0 -> " /*c*/ " [] k % 6 = 2 -> " /** c **/ " [] k % 6 = 4 -> " /***/ " [] OTHER -> " //c\n"
                \* comments holding the other characters some tools treat as line boundaries (CR, FF): not line ends for FCP
                [] style.gaps = "xc"  -> IF k % 3 = 0 THEN " /*c\rd*/ " ELSE IF k % 3 = 1 THEN " //c\r\n" ELSE " /*\f*/ "
-               [] OTHER -> GapChoices[((style.seed * 7 + k * 5 + (k \div 3) * 11 + (k \div 7)) % 6) + 1] IN
+               [] OTHER -> GapChoices[((style.seed * 7 + k * 5 + (k \div 3) * 11 + (k \div 7)) % 8) + 1] IN
     IF g = "" /\ need THEN " " ELSE g
 
 RECURSIVE RenderFrom(_, _, _)
